@@ -200,3 +200,175 @@ PROPS["C13"] = Prop(
     "byte-level prefix families are added with the hashing model",
     assumptions=["size <= 2^63, bs <= 10"],
 )
+
+
+# ------------------------------------------------------------------ plans and range sets
+F_PLAN = Family("plan", "Run.RunPlan", "run_plan", "holds_plan", lambda a, o: len(o) > 6)
+F_PLAN.profiled = True
+F_PLANSPEC = Family("planspec", "Run.RunPlan", "run_planspec", "(fun _ _ => true)", lambda a, o: len(o) > 6)
+F_PLANSPEC.profiled = True
+F_PLANSPEC.prep_obs = lambda o: o if vlib.PANIC in o else [0 if i % 6 == 5 else x for i, x in enumerate(o)]
+F_RANGES = Family("ranges", "Run.RunPlan", "run_ranges", "holds_ranges", lambda a, o: len(a) > 3)
+F_RANGES.profiled = True
+
+
+def all_subsets(universe):
+    u = list(universe)
+    for m in range(1 << len(u)):
+        yield [u[i] for i in range(len(u)) if m >> i & 1]
+
+
+def small_sizes(maxchunks):
+    out = {0, 1}
+    for c in range(1, maxchunks + 1):
+        out.update({c * 1024, c * 1024 - 1, (c - 1) * 1024 + 1, (c - 1) * 1024 + 512})
+    return sorted(x for x in out if x >= 0)
+
+
+def nchunks(size):
+    return max(1, (size + 1023) // 1024)
+
+
+def rand_query(rng, n, extra=3):
+    """random strictly sorted boundary list around 0..n+extra, sometimes with huge boundaries"""
+    k = rng.randrange(0, 6)
+    u = sorted(rng.sample(range(0, n + extra + 1), min(k, n + extra + 1)))
+    if rng.random() < 0.1:
+        u.append(rng.choice([(1 << 64) - 1, 1 << 63, (1 << 62) + 5]))
+    return u
+
+
+def gen_c15(tier, rng):
+    cases = []
+    maxc = 5 if tier == "quick" else 8
+    exh = 4 if tier == "quick" else 6
+    for size in small_sizes(maxc):
+        n = nchunks(size)
+        for bs in range(0, 4):
+            cases.append(("plan", [size, bs, 0, 0]))
+            cases.append(("planspec", [size, bs, 0, 0]))
+            qs = list(all_subsets(range(0, n + 3))) if n <= exh else [rand_query(rng, n) for _ in range(40)]
+            for q in qs:
+                mls = range(0, 6) if (len(q) <= 2 and n <= 3) or tier == "thorough" else (rng.randrange(0, 6),)
+                for ml in mls:
+                    cases.append(("plan", [size, bs, ml, 1] + q))
+                    if rng.random() < 0.5:
+                        cases.append(("planspec", [size, bs, ml, 1] + q))
+                cases.append(("plan", [size, bs, 0, 2] + q))
+                if rng.random() < 0.5:
+                    cases.append(("planspec", [size, bs, 0, 2] + q))
+    # sampled large trees with sparse queries
+    for _ in range(150 if tier == "quick" else 3000):
+        size = rng.randrange(1, 1 << rng.randrange(11, 41))
+        bs = rng.randrange(0, 9)
+        n = nchunks(size)
+        pts = set()
+        for _ in range(rng.randrange(1, 4)):          # narrow ranges: plans stay short
+            p0 = rng.randrange(0, n + 2)
+            pts.symmetric_difference_update({p0, p0 + rng.randrange(1, 4)})
+        if rng.random() < 0.3:
+            pts.add(n + rng.randrange(0, 3))          # open-ended tail near / past the end
+        pts = sorted(pts)
+        if len(pts) % 2 == 1 and pts[-1] < n - 40:
+            pts = pts[:-1]
+        which = rng.choice([1, 1, 2])
+        fam = rng.choice(["plan", "plan", "planspec"])
+        cases.append((fam, [size, bs, rng.randrange(0, 12), which] + pts))
+    return cases
+
+
+def gen_c17(tier, rng):
+    cases = []
+    M = (1 << 64) - 1
+    for bs in (0, 1, 2):
+        g = 1 << bs
+        uni = range(0, 3 * g + 2) if tier == "thorough" or bs < 2 else range(0, 2 * g + 3)
+        for q in all_subsets(uni):
+            if len(q) > 6 and tier == "quick":
+                continue
+            cases.append(("ranges", [3, bs, 0] + q))
+            cases.append(("ranges", [4, bs, 0] + q))
+    # byte ranges around chunk boundaries
+    pts = [0, 1, 1023, 1024, 1025, 2047, 2048, 2049, 3072]
+    for q in all_subsets(pts):
+        if len(q) <= (5 if tier == "quick" else 9):
+            cases.append(("ranges", [2, 0, 0] + q))
+    big = [1 << k for k in range(1, 64)] + [(1 << k) - 1 for k in range(2, 65)] + [(1 << k) + 1 for k in range(2, 64)]
+    for _ in range(600 if tier == "quick" else 20000):
+        k = rng.randrange(1, 5)
+        q = sorted(set(rng.choice(big) if rng.random() < 0.7 else rng.randrange(0, 1 << 64) for _ in range(k)))
+        bs = rng.randrange(0, 11)
+        fn = rng.choice([2, 3, 4])
+        cases.append(("ranges", [fn, bs, 0] + q))
+    # the crate's own "last chunk" query and its neighbours
+    for bs in range(0, 11):
+        for q in ([M], [M - 1], [M - (1 << bs)], [M - (1 << bs) + 1], [5, M], [0, M], [M - 1, M], [3, M - (1 << bs)], [3, M - (1 << bs) + 1]):
+            for fn in (2, 3, 4):
+                cases.append(("ranges", [fn, bs, 0] + q))
+    return cases
+
+
+def gen_c14_ranges(tier, rng):
+    cases = []
+    maxc = 6 if tier == "quick" else 8
+    for size in small_sizes(maxc):
+        n = nchunks(size)
+        for q in all_subsets(range(0, n + 3)):
+            cases.append(("ranges", [0, size, 0] + q))
+    M = (1 << 64) - 1
+    for _ in range(400 if tier == "quick" else 10000):
+        size = rng.randrange(0, 1 << rng.randrange(1, 64))
+        n = nchunks(size)
+        k = rng.randrange(0, 6)
+        cand = [n - 2, n - 1, n, n + 1, n + 2, 0, 1, M, M - 1, 1 << 63] + [rng.randrange(0, 2 * n + 2) for _ in range(4)]
+        q = sorted(set(x for x in rng.sample(cand, min(k, len(cand))) if 0 <= x <= M))
+        cases.append(("ranges", [0, size, 0] + q))
+    return cases
+
+
+def known_empty_query_plan(r):
+    # plan family: args [size, bs, ml, which, q...] with which in (1, 2) and empty q
+    return r["family"] in ("plan", "planspec") and r["args"][3] in (1, 2) and len(r["args"]) == 4
+
+
+KNOWN_CLASSES["empty_query_plan"] = known_empty_query_plan
+
+
+def known_c17_overflow(r):
+    if r["family"] != "ranges":
+        return False
+    fn, bs = r["args"][0], r["args"][1]
+    q = r["args"][3:]
+    lim = (1 << 64) - (1 << bs)
+    if fn == 3:
+        return any(e > lim for e in q[1::2])
+    if fn == 4:
+        return any(s >= lim for s in q[0::2])
+    return False
+
+
+KNOWN_CLASSES["c17_overflow"] = known_c17_overflow
+
+PROPS["C15"] = Prop(
+    [F_PLAN, F_PLANSPEC], gen_c15,
+    "plan: every byte-size class up to 5 (quick) / 8 (thorough) chunks x bs 0..3 x {post-order plan, pre-order plan with "
+    "min_level 0..5, response plan} x every subset of boundaries in 0..nchunks+2 (exhaustive up to 4/6 chunks, random beyond), "
+    "plus sampled trees up to 2^40 bytes with sparse queries; planspec: the same observations compared with the recursive "
+    "specification Spec/PlanSpec.v. non-trivial = plan with more than one item",
+    assumptions=["size <= 2^63, bs <= 10, min_level <= 63, boundaries strictly sorted < 2^64"],
+)
+PROPS["C17"] = Prop(
+    [F_RANGES], gen_c17,
+    "ranges: every boundary subset over 0..3*2^bs+1 for bs<=2 (open and closed), byte-range subsets around chunk boundaries, "
+    "random sets over 2^k, 2^k+-1 up to u64::MAX with bs 0..10, and ChunkNum(u64::MAX).. with neighbours; both build profiles. "
+    "non-trivial = non-empty input set",
+    assumptions=["bs <= 10; groups: closed ends <= 2^64-2^bs; full: starts <= 2^64-2^bs (outside: known finding)"],
+)
+
+PROPS["C14"] = Prop(
+    [F_RANGES], gen_c14_ranges,
+    "ranges(truncate): every boundary subset in 0..nchunks+2 for every byte-size class up to 6 (quick) / 8 (thorough) chunks, "
+    "plus random sizes up to 2^63 with boundaries around the end and at u64::MAX; cross encode/decode families are added "
+    "with the hashing model. non-trivial = non-empty query",
+    assumptions=["boundaries strictly sorted < 2^64, size <= 2^63"],
+)
